@@ -243,6 +243,46 @@ pub fn gen_c08(rng: &mut Rng, tier: Tier) -> NetProgram {
     prog
 }
 
+// ---------------------------------------------------------------- C10 (net level)
+
+/// open-loop senders over channel-free or latency-only links; the driver pauses the run and puts messages onto gates
+pub fn gen_c10_net(rng: &mut Rng, _tier: Tier) -> NetProgram {
+    let nmod = 2 + rng.small(3) as usize;
+    let mut prog = NetProgram { seed: rng.u64(), ..Default::default() };
+    for i in 0..nmod {
+        prog.modules.push(ModSpec { name: format!("m{i}"), parent: -1, stages: 1, gates: vec![("p".into(), 2)], panic_at: 255, ..Default::default() });
+    }
+    prog.order = (0..nmod as u32).collect();
+    for i in 0..nmod {
+        let j = (i + 1) % nmod;
+        if i != j && !(nmod == 2 && i == 1) {
+            let chan = if rng.chance(1, 2) { Some(Chan { bitrate: 0, latency_ns: *rng.pick(&[0u64, 1_000_000, 250_000_000]), jitter_ns: 0, queue: -1 }) } else { None };
+            prog.links.push(Link { am: i as u32, ag: 1, bm: j as u32, bg: 0, flip: rng.chance(1, 2), chan });
+        }
+    }
+    let unit = 250_000_000u64;
+    for i in 0..nmod {
+        let mut t = rng.below(4) * unit;
+        for _ in 0..1 + rng.small(5) {
+            let n = 1 + rng.small(3) as usize;
+            let acts = (0..n).map(|_| if rng.chance(1, 3) { Act::SelfMsg { delay_ns: rng.below(3) * unit } } else { Act::Send { gate: rng.below(2) as u32, delay_ns: rng.below(3) * unit, body: 0 } }).collect();
+            prog.modules[i].beats.push(Beat { at_ns: t, acts });
+            t += rng.below(4) * unit;
+        }
+        prog.modules[i].chained = rng.chance(1, 2);
+    }
+    for _ in 0..1 + rng.small(3) {
+        prog.injections.push(Inject {
+            pause_ns: rng.below(16) * unit + if rng.chance(1, 3) { rng.below(unit) } else { 0 },
+            delay_ns: if rng.chance(1, 2) { 0 } else { rng.below(4) * unit },
+            m: rng.below(nmod as u64) as u32,
+            gate: rng.below(2) as u32,
+        });
+    }
+    cq(rng, &mut prog, unit);
+    prog
+}
+
 // ---------------------------------------------------------------- C07
 
 pub fn gen_c07(rng: &mut Rng, tier: Tier) -> NetProgram {
